@@ -26,6 +26,7 @@ def main():
     tier = sys.argv[sys.argv.index("--tier") + 1] if "--tier" in sys.argv else "quick"
     checks = sys.argv[sys.argv.index("--checks") + 1].split(",") if "--checks" in sys.argv else [prop]
     wt = "/tmp/seedeval/wt-%d" % os.getpid()
+    outlink = None
     os.makedirs("/tmp/seedeval", exist_ok=True)
     res = {"property": prop, "source": src, "tier": tier}
     meta = {}
@@ -69,10 +70,16 @@ def main():
         wt2 = "/tmp/seedeval/repo-%d" % os.getpid()
         sh("git -C /repo worktree add -q --detach %s HEAD" % wt2)
         rc, out = sh("git apply %s" % os.path.join(src, "patch.diff"), cwd=wt2)
+        # the checks run from a private copy of /verif (own bin/, own lean build, own generated facts), so that
+        # several evaluations and ordinary check runs do not overwrite each other's harness binary
+        vrun = "/tmp/seedeval/verif-%d" % os.getpid()
+        sh("rsync -a --exclude .cache --exclude .git --exclude replays --exclude seeded %s/ %s/" % (VERIF, vrun))
         try:
             for c in checks:
                 t0 = time.time()
-                rc, out = sh("VERIF_REPO=%s VERIF_EVIDENCE_DIR=/tmp/seedeval/ev ./check %s --tier %s" % (wt2, c, tier), cwd=VERIF, timeout=7200)
+                rc, out = sh("VERIF_REPO=%s VERIF_EVIDENCE_DIR=%s/ev ./check %s --tier %s" % (wt2, vrun, c, tier), cwd=vrun, timeout=7200)
+                out = out.replace(vrun + "/replays", VERIF + "/replays")
+                sh("mkdir -p %s/replays && rsync -a %s/replays/ %s/replays/" % (VERIF, vrun, VERIF))
                 lines = [l for l in out.split("\n") if l.startswith("VIOLATION") or l.startswith(c + " ")]
                 res["checks"][c] = {"exit": rc, "wall_s": round(time.time() - t0, 1), "lines": lines[:8],
                                     "concrete": any(l.startswith("VIOLATION") and "no-failing-input-found" not in l for l in lines)}
@@ -87,8 +94,7 @@ def main():
                         break
         finally:
             sh("git -C /repo worktree remove --force %s" % wt2)
-            # leave the regenerated facts of the unchanged tree behind
-            sh("./bin/extract >/dev/null 2>&1; ./bin/sites >/dev/null 2>&1", cwd=VERIF)
+            shutil.rmtree(vrun, ignore_errors=True)
     dst = os.path.join(VERIF, "seeded", name)
     os.makedirs(dst, exist_ok=True)
     for f in os.listdir(src):
